@@ -54,13 +54,18 @@ def convert_telegram_url_to_public(url):
 
     has_protocol = safe_url == url
 
-    scheme, netloc, path, query, fragment = urlsplit(safe_url)
+    try:
+        splitted = urlsplit(safe_url)
+    except ValueError:
+        splitted = None
 
-    if not is_telegram_url(netloc):
+    if splitted is None or not is_telegram_url(splitted.netloc):
         raise TypeError(
             "ural.telegram.convert_telegram_url_to_public: %s is not a telegram url"
             % url
         )
+
+    scheme, netloc, path, query, fragment = splitted
 
     netloc = re.sub(TELEGRAM_PUBLIC_REPLACE_RE, "t.me/s", netloc)
 
@@ -87,7 +92,11 @@ def parse_telegram_url(url):
     if not is_telegram_url(url):
         return None
 
-    parsed = safe_urlsplit(url)
+    try:
+        parsed = safe_urlsplit(url)
+    except ValueError:
+        return None
+
     path = pathsplit(parsed.path)
 
     if path:
